@@ -49,6 +49,9 @@ type c41Msg struct {
 	Forge []int  `json:"forge,omitempty"` // com: embedded entries whose signature bytes are NOT the named peer's (positions mod N+3: may name non-validators)
 	Dup   int    `json:"dup,omitempty"`   // metamorphic run: delivered 1+Dup times in a row
 	Var   int    `json:"var,omitempty"`   // com: >0 puts a fault report with this id into the message (same vote, different bytes)
+	Rs    int    `json:"rs,omitempty"`    // >0: the sender's own signature is a RE-SIGNED one (same content, other signature bytes)
+	EmbRs int    `json:"embrs,omitempty"` // com: >0: the genuine embedded endorser signatures are re-signed ones
+	DupRs bool   `json:"duprs,omitempty"` // metamorphic run: the re-deliveries are re-signed instead of byte-identical
 }
 
 type c41Case struct {
@@ -85,6 +88,11 @@ func genC41Msg(n int, forge bool, kinds []string) *rapid.Generator[c41Msg] {
 			}
 		}
 		m.Dup = rapid.SampledFrom([]int{0, 0, 1, 2}).Draw(t, "dup")
+		m.Rs = rapid.SampledFrom([]int{0, 0, 0, 1, 2}).Draw(t, "rs")
+		if m.K == "com" {
+			m.EmbRs = rapid.SampledFrom([]int{0, 0, 1, 2}).Draw(t, "embrs")
+		}
+		m.DupRs = rapid.Bool().Draw(t, "duprs")
 		return m
 	})
 }
@@ -204,15 +212,20 @@ func (f *c41Fix) proposerSig(s int, empty bool) []byte {
 	return b.Block.Header.SigData[0]
 }
 
-func (f *c41Fix) proposal(s, variant int) *vbft.VerifBlockProposalMsg {
-	return &vbft.VerifBlockProposalMsg{Block: cloneVbftBlock(f.blocks[s][variant])}
+func (f *c41Fix) proposal(s, variant, rs int) *vbft.VerifBlockProposalMsg {
+	b := cloneVbftBlock(f.blocks[s][variant])
+	if rs > 0 {
+		b.Block.Header.SigData[0] = signHashV(s, b.Block.Hash(), rs)
+		b.EmptyBlock.Header.SigData[0] = signHashV(s, b.EmptyBlock.Hash(), rs)
+	}
+	return &vbft.VerifBlockProposalMsg{Block: b}
 }
 
 func (f *c41Fix) endorse(m c41Msg) *vbft.VerifBlockEndorseMsg {
 	s, from := mod(m.P, 3), mod(m.From, f.n)
 	h := f.hash(s, m.Empty)
 	return &vbft.VerifBlockEndorseMsg{Endorser: pidx(from), EndorsedProposer: pidx(s), BlockNum: c41BlkNum, EndorsedBlockHash: h,
-		EndorseForEmpty: m.Empty, ProposerSig: f.proposerSig(s, m.Empty), EndorserSig: signHash(from, h)}
+		EndorseForEmpty: m.Empty, ProposerSig: f.proposerSig(s, m.Empty), EndorserSig: signHashV(from, h, m.Rs)}
 }
 
 func (f *c41Fix) commit(m c41Msg) *vbft.VerifBlockCommitMsg {
@@ -226,14 +239,14 @@ func (f *c41Fix) commit(m c41Msg) *vbft.VerifBlockCommitMsg {
 	}
 	for _, e := range m.Emb {
 		e = mod(e, f.n)
-		es[pidx(e)] = signHash(e, h)
+		es[pidx(e)] = signHashV(e, h, m.EmbRs)
 	}
 	var fv []*vbft.FaultyReport
 	if m.Var > 0 {
 		fv = []*vbft.FaultyReport{{FaultyID: uint32(m.Var)}}
 	}
 	return &vbft.VerifBlockCommitMsg{Committer: pidx(from), BlockProposer: pidx(s), BlockNum: c41BlkNum, CommitBlockHash: h,
-		CommitForEmpty: m.Empty, FaultyVerifies: fv, ProposerSig: f.proposerSig(s, m.Empty), EndorsersSig: es, CommitterSig: signHash(from, h)}
+		CommitForEmpty: m.Empty, FaultyVerifies: fv, ProposerSig: f.proposerSig(s, m.Empty), EndorsersSig: es, CommitterSig: signHashV(from, h, m.Rs)}
 }
 
 // ---- the harness's bookkeeping: sets of participants
@@ -266,6 +279,7 @@ type c41Model struct {
 	direct             map[int]map[se]bool // own endorsement message delivered
 	hasProposal        [3]bool
 	proposalVariant    [3]int
+	proposalRs         [3]int
 	committed          map[int]se // first commit of a committer
 	hasCommitted       map[int]bool
 	repeats            int // messages by a participant that already spoke (duplicates / conflicts)
@@ -433,14 +447,20 @@ func c41Play(ctx *ev.Ctx, c c41Case, f *c41Fix, withDups bool) c41Obs {
 		if withDups {
 			times += msg.Dup
 		}
+		orig := msg
 		for rep := 0; rep < times; rep++ {
 			var err error
 			var pnc string
+			msg := orig
+			if rep > 0 && orig.DupRs {
+				// re-delivery as a re-signed message: same content, other signature bytes
+				msg.Rs, msg.EmbRs = orig.Rs+10*rep, orig.EmbRs+10*rep
+			}
 			switch msg.K {
 			case "prop":
 				s := mod(msg.From, 3)
 				v := b2i(msg.Alt)
-				pm := f.proposal(s, v)
+				pm := f.proposal(s, v, msg.Rs)
 				pnc = ev.Catch(func() { err = srv.VerifNewBlockProposal(pm) })
 				if pnc == "" && judged {
 					switch {
@@ -448,8 +468,13 @@ func c41Play(ctx *ev.Ctx, c c41Case, f *c41Fix, withDups bool) c41Obs {
 						if err != nil {
 							ctx.Failf("first proposal of proposer %d rejected: %v", pidx(s), err)
 						}
-						m.hasProposal[s], m.proposalVariant[s] = true, v
+						m.hasProposal[s], m.proposalVariant[s], m.proposalRs[s] = true, v, msg.Rs
 						m.endorsed(s, s, false, true)
+					case m.proposalVariant[s] == v && m.proposalRs[s] != msg.Rs:
+						// the same block signed again by its proposer: the pool keeps the first copy; whether
+						// it reports the second as a duplicate or as a conflict is not judged, counting is
+						m.repeats++
+						lab.Label("resigned:proposal")
 					case m.proposalVariant[s] == v:
 						m.repeats++
 						if err != nil {
@@ -473,6 +498,9 @@ func c41Play(ctx *ev.Ctx, c c41Case, f *c41Fix, withDups bool) c41Obs {
 					who, s := mod(msg.From, N), mod(msg.P, 3)
 					if len(m.appear[who]) > 0 && !m.appear[who][se{s, msg.Empty}] {
 						lab.Label("conflict:equivocating-endorser")
+					}
+					if m.appear[who][se{s, msg.Empty}] && msg.Rs > 0 {
+						lab.Label("resigned:endorsement-of-already-counted-participant")
 					}
 					m.endorsed(who, s, msg.Empty, true)
 					mark(m.direct, who, se{s, msg.Empty})
@@ -503,6 +531,9 @@ func c41Play(ctx *ev.Ctx, c c41Case, f *c41Fix, withDups bool) c41Obs {
 					m.clmCom[s].add(who)
 					for _, e := range msg.Emb {
 						e = mod(e, N)
+						if m.appear[e][se{s, msg.Empty}] && msg.EmbRs > 0 {
+							lab.Label("resigned:embedded-sig-of-already-counted-participant")
+						}
 						m.endorsed(e, s, msg.Empty, true)
 						m.genCom[s].add(e)
 						m.clmCom[s].add(e)
@@ -720,7 +751,7 @@ func runC41Gcc(ctx *ev.Ctx, c c41Case) {
 		for _, e := range m.Emb {
 			emb.add(mod(e, N))
 		}
-		id := fmt.Sprintf("%d/%d/%v/%v/%d", mod(m.From, N), mod(m.P, 3), m.Empty, emb.list(), m.Var)
+		id := fmt.Sprintf("%d/%d/%v/%v/%d/%d/%d", mod(m.From, N), mod(m.P, 3), m.Empty, emb.list(), m.Var, m.Rs, m.EmbRs)
 		if seenMsg[id] {
 			continue // the message pool drops byte-identical messages
 		}
@@ -798,7 +829,7 @@ func runC41Gcc(ctx *ev.Ctx, c c41Case) {
 
 func TestC41(t *testing.T) {
 	ev.Drive(t, "C41",
-		"cases: N=4..10 (thorough ..13), C=1..(N-1)/3; mode pool: one-round history of 1..4N proposal/endorse/commit messages over 3 proposers (duplicates, equivocating endorsers, conflicting proposals and commits, empty-block votes, commits embedding endorser signatures, optionally forged embedded entries) fed to the real BlockPool, decisions judged after every message, all proposals sealed at the end, plus a second run with messages re-delivered in a row; "+
+		"cases: N=4..10 (thorough ..13), C=1..(N-1)/3; mode pool: one-round history of 1..4N proposal/endorse/commit messages over 3 proposers (byte-identical AND re-signed duplicates of already counted participants - own endorsements, commits, embedded endorser signatures -, equivocating endorsers, conflicting proposals and commits, empty-block votes, commits embedding endorser signatures, optionally forged embedded entries) fed to the real BlockPool, decisions judged after every message, all proposals sealed at the end, plus a second run with messages re-delivered in a row (byte-identical or re-signed); "+
 			"mode gcc: getCommitConsensus on a raw commit-message list in which a committer may appear several times. "+
 			"non-trivial: a decision (endorseDone or commitDone / consensus) is reached AND some participant spoke more than once (duplicate, conflicting or embedded-again message); distinct by JSON encoding of the case",
 		genC41, runC41)
